@@ -18,8 +18,8 @@ def main():
         sys.exit(replaycmd.run(a.prop, a.replay))
     K = {"C05", "C06", "C07", "C18", "C19", "C20"}
     if a.prop in K:
-        import kprops
-        res = kprops.run(a.prop, a.tier, seed, a.only)
+        import oprops
+        res = oprops.run(a.prop, a.tier, seed, a.only)
     else:
         import mprops
         res = mprops.run(a.prop, a.tier, seed, a.only)
